@@ -106,9 +106,13 @@ template <class D> static bool large_magnitude(const D &inv, const std::vector<v
 }
 
 // silences crab::outs() (the bottom-up analyzer prints unconditionally)
+static bool g_crablog = false; // triage aid: VERIF_CRABLOG=inter,inter-extend,... (replay only)
 struct QuietCout {
   std::ios_base::iostate st;
-  QuietCout() : st(std::cout.rdstate()) { std::cout.setstate(std::ios_base::failbit); }
+  QuietCout() : st(std::cout.rdstate()) {
+    if (!g_crablog)
+      std::cout.setstate(std::ios_base::failbit);
+  }
   ~QuietCout() { std::cout.clear(st); }
 };
 
@@ -119,6 +123,11 @@ struct SumPair {
   sum_dom_t pre, post;
 };
 
+// thrown by the observer to end ONE execution (values leave the range the concrete model keeps)
+struct StopExec {
+  const char *reason;
+};
+
 struct InterObs : public Observer {
   analyzer_t &a;
   CaseCtx &ctx;
@@ -127,6 +136,7 @@ struct InterObs : public Observer {
   std::map<std::pair<unsigned, label_t>, BlockInv> cache;
   std::map<unsigned, std::vector<SumPair>> sums;
   std::map<int64_t, bool> reached, violated;
+  std::map<int64_t, unsigned> assert_fn; // assertion id -> function index
   MemberOpts mo, mo_light;
   unsigned full_budget = 60; // membership tests with all of M1-M5; afterwards M1-M4 (no entailment probes)
   std::set<std::string> seen; // (point, state) pairs already judged
@@ -138,7 +148,9 @@ struct InterObs : public Observer {
   bool saw_nontrivial_inv = false, saw_nontrivial_call = false;
   std::vector<bool> callee_collides; // shares a name with a caller or has >= 2 sites
   std::vector<bool> on_cycle;        // function lies on a call-graph cycle
+  std::vector<bool> on_mutual_cycle; // ... on a cycle through at least one other function
   bool precise_rec = false;
+  bool bool_lhs_call = false; // some call site has a boolean lhs
 
   InterObs(analyzer_t &an, CaseCtx &c, CGProgram &p) : a(an), ctx(c), cgp(p) {
     for (unsigned i = 0; i < p.funcs.size(); i++)
@@ -148,22 +160,22 @@ struct InterObs : public Observer {
     mo_light.disjunctive = false;
     callee_collides.assign(p.funcs.size(), false);
     on_cycle.assign(p.funcs.size(), false);
-    for (unsigned i = 0; i < p.funcs.size(); i++) {
-      // can i reach itself?
-      std::vector<bool> seen(p.funcs.size(), false);
-      std::vector<unsigned> work{i};
-      while (!work.empty()) {
-        unsigned x = work.back();
-        work.pop_back();
-        for (auto &s : p.sites)
-          if (s.caller == x) {
-            if (s.callee == i)
-              on_cycle[i] = true;
-            if (!seen[s.callee]) {
-              seen[s.callee] = true;
-              work.push_back(s.callee);
-            }
-          }
+    on_mutual_cycle.assign(p.funcs.size(), false);
+    {
+      const unsigned n = (unsigned)p.funcs.size();
+      std::vector<std::vector<bool>> reach(n, std::vector<bool>(n, false));
+      for (auto &s : p.sites)
+        reach[s.caller][s.callee] = true;
+      for (unsigned k = 0; k < n; k++)
+        for (unsigned i = 0; i < n; i++)
+          for (unsigned j = 0; j < n; j++)
+            if (reach[i][k] && reach[k][j])
+              reach[i][j] = true;
+      for (unsigned i = 0; i < n; i++) {
+        on_cycle[i] = reach[i][i];
+        for (unsigned j = 0; j < n; j++)
+          if (i != j && reach[i][j] && reach[j][i])
+            on_mutual_cycle[i] = true;
       }
     }
     for (unsigned i = 0; i < p.funcs.size(); i++) {
@@ -207,24 +219,45 @@ struct InterObs : public Observer {
       throw Truncate{"int64_dbm_weights_large_concrete_value"};
   }
   // narrow classifier suffix for a failed block invariant of function fi
-  std::string block_feat(unsigned fi, const std::string &r) {
+  std::string block_feat(unsigned fi, const std::string &r, bool block = true) {
     // known finding: with precise recursion a recursive function whose exit is unreachable in
     // the first pass (it never returns) gets no invariants at all: get_pre/get_post are bottom
-    if (precise_rec && on_cycle[fi] && mkind(r) == "M1" && inv(fi, cgp.funcs[fi]->prog.cfg->entry()).pre.is_bottom())
+    if (block && precise_rec && on_cycle[fi] && mkind(r) == "M1" && inv(fi, cgp.funcs[fi]->prog.cfg->entry()).pre.is_bottom())
       return KIND + "_recfun_without_invariants";
+    // known finding: a call-graph cycle through >= 2 functions that is entered at a function
+    // which is not the head chosen by the call-graph WTO: the call that closes the cycle is
+    // replaced by top ("imprecise analysis of recursive call") and its calling context never
+    // reaches the invariants of that function
+    if (on_mutual_cycle[fi])
+      return KIND + "_mutualrec_context_lost";
     return "";
   }
   // classifier tag: the program-level hazard class if there is one (a wrong callee entry or
   // continuation shows up anywhere downstream), else the failing relation itself
   std::string tag(const std::string &what, const std::string &r, int fi = -1) {
     if (fi >= 0) {
-      std::string b = block_feat((unsigned)fi, r);
+      std::string b = block_feat((unsigned)fi, r, what != "summary");
       if (!b.empty())
         return b;
     }
     if (!feat.empty())
       return KIND + feat;
+    // known finding (domain level): flat_boolean_numerical_domain::forget(vector)/project/rename
+    // return early when the boolean x numerical product is top and keep the hidden
+    // "b implies b' / b implies constraint" tables: the old definition of a boolean lhs
+    // survives a call, and the tables of the callee's locals leak into the caller through
+    // project() of a top exit value. Only the point meet (M4) can see hidden tables.
+    if ((DOM_CAPS & CAP_BOOL) && !cgp.sites.empty() && mkind(r) == "M4")
+      return KIND + "_flatbool_tables_survive_top";
     return KIND + "_" + what + "_" + mkind(r);
+  }
+  std::string c02_tag(const std::string &what, int64_t id) {
+    auto it = assert_fn.find(id);
+    if (it != assert_fn.end() && on_mutual_cycle[it->second])
+      return KIND + "_mutualrec_context_lost";
+    if (!feat.empty())
+      return KIND + feat;
+    return KIND + "_" + what;
   }
   const MemberOpts &opts() {
     if (full_budget > 0) {
@@ -271,10 +304,16 @@ struct InterObs : public Observer {
            "state " << s.str() << " leaves block " << l << " of " << cgp.funcs[fi]->name << " but is not in get_post = "
                     << to_str(bi.post) << " : " << r);
   }
-  void assertion(const cfg_t &, stmt_t &st, bool holds, const State &) override {
+  void after_stmt(const cfg_t &, const label_t &, unsigned, stmt_t &, const State &s) override {
+    // repeated squaring doubles the size of a value at every step: stop such executions
+    if (state_has_large_value(s, 200))
+      throw StopExec{"value beyond 2^200"};
+  }
+  void assertion(const cfg_t &cfg, stmt_t &st, bool holds, const State &) override {
     if (probe)
       return;
     int64_t id = st.get_debug_info().get_id();
+    assert_fn[id] = fidx.at(&cfg);
     reached[id] = true;
     if (!holds)
       violated[id] = true;
@@ -305,7 +344,7 @@ struct InterObs : public Observer {
         continue; // the inputs do not satisfy this precondition: the pair says nothing
       summary_applicable++;
       std::string r = member(io, sp.post, opts());
-      VCHECK(ctx, PROP, r.empty(), tag("summary", r),
+      VCHECK(ctx, PROP, r.empty(), tag("summary", r, (int)fi),
              "call of " << cgp.funcs[fi]->name << " with inputs " << inputs.str() << " returned outputs " << outputs.str()
                         << "; the inputs satisfy pre = " << to_str(sp.pre) << " of summary pair " << k
                         << " but inputs+outputs are not in post = " << to_str(sp.post) << " : " << r
@@ -328,6 +367,21 @@ void run_case(const uint8_t *data, size_t size, CaseCtx &ctx) {
   crab::CrabWarningFlag = false;
   crab::domains::crab_domain_params_man::get() = crab::domains::crab_domain_params();
   crab::CrabStats::reset();
+  if (ctx.verbose && !g_crablog)
+    if (const char *lg = getenv("VERIF_CRABLOG")) {
+      g_crablog = true;
+      std::string cur;
+      for (const char *c = lg;; c++) {
+        if (*c == ',' || *c == 0) {
+          if (!cur.empty())
+            crab::CrabEnableLog(cur);
+          cur.clear();
+          if (*c == 0)
+            break;
+        } else
+          cur += *c;
+      }
+    }
 
   // ---- parameters (all of inter_analyzer_parameters) ------------------------------------
   params_t pa;
@@ -359,7 +413,7 @@ void run_case(const uint8_t *data, size_t size, CaseCtx &ctx) {
   co.rec_num = 3;
 #else
   co.allow_orphans = true;
-  co.rec_num = 5;
+  co.rec_num = 8;
 #endif
   CGProgram cgp;
   gen_callgraph(t, co, cgp);
@@ -551,6 +605,8 @@ void run_case(const uint8_t *data, size_t size, CaseCtx &ctx) {
   // ---- executions from the call-graph entries ------------------------------------------------------------------
   InterObs obs(a, ctx, cgp);
   obs.feat = feat;
+  for (auto &s : cgp.sites)
+    obs.bool_lhs_call |= s.bool_lhs;
 #ifndef H_BU
   obs.check_blocks = pa.keep_invariants;
   obs.precise_rec = pa.analyze_recursive_functions;
@@ -595,7 +651,12 @@ void run_case(const uint8_t *data, size_t size, CaseCtx &ctx) {
     in.max_blocks = 120;
     if (INT64_WEIGHTS)
       in.big_chance = 0;
-    Stop why = in.run(ecfg, ecfg.entry(), s);
+    Stop why = Stop::Outside;
+    try {
+      why = in.run(ecfg, ecfg.entry(), s);
+    } catch (const StopExec &se) {
+      in.outside_reason = se.reason;
+    }
     total_blocks += in.blocks_visited;
     if (in.blocks_visited >= 3)
       long_execs++;
@@ -656,7 +717,12 @@ void run_case(const uint8_t *data, size_t size, CaseCtx &ctx) {
       if (INT64_WEIGHTS)
         in.big_chance = 0;
       cfg_t &fcfg = *f.prog.cfg;
-      Stop why = in.run(fcfg, fcfg.entry(), frame);
+      Stop why = Stop::Outside;
+      try {
+        why = in.run(fcfg, fcfg.entry(), frame);
+      } catch (const StopExec &se) {
+        in.outside_reason = se.reason;
+      }
       R().cls(std::string("probe_stop_") + stop_name(why));
       if (why == Stop::Outside)
         R().trunc(in.outside_reason);
@@ -712,12 +778,12 @@ void run_case(const uint8_t *data, size_t size, CaseCtx &ctx) {
     }
     if (all_unreach) {
       n_claims++;
-      VCHECK(ctx, "C02", !r, (feat.empty() ? KIND + "_unreachable_but_reached" : KIND + feat),
+      VCHECK(ctx, "C02", !r, obs.c02_tag("unreachable_but_reached", kv.first),
              "assertion id=" << kv.first << " classified UNREACHABLE in all " << kv.second.size()
                              << " analysed contexts but a concrete execution reaches it");
     } else if (all_safe) {
       n_claims++;
-      VCHECK(ctx, "C02", !v, (feat.empty() ? KIND + "_safe_but_violated" : KIND + feat),
+      VCHECK(ctx, "C02", !v, obs.c02_tag("safe_but_violated", kv.first),
              "assertion id=" << kv.first << " classified SAFE/UNREACHABLE in all " << kv.second.size()
                              << " analysed contexts but a concrete execution violates it");
     }
